@@ -36,7 +36,26 @@ impl Pv {
 #[derive(Clone, Copy, Debug, PartialEq, Eq)]
 pub enum Hs {
     Fnv,
+    /// probminhash::superminhasher::NoHashHasher
     NoHash,
+    /// probminhash::nohasher::NoHashHasher (a second, separate type of the crate)
+    NoHashMod,
+}
+
+impl Hs {
+    /// hash of an item as the sketchers compute it
+    pub fn hash(&self, x: u64) -> u64 {
+        use std::hash::BuildHasher;
+        match self {
+            Hs::Fnv => BuildHasherDefault::<FnvHasher>::default().hash_one(x),
+            Hs::NoHash => BuildHasherDefault::<NoHashHasher>::default().hash_one(x),
+            Hs::NoHashMod => BuildHasherDefault::<probminhash::nohasher::NoHashHasher>::default().hash_one(x),
+        }
+    }
+    /// a pass-through hasher must be injective
+    pub fn must_be_injective(&self) -> bool {
+        !matches!(self, Hs::Fnv)
+    }
 }
 
 #[derive(Clone, Copy, Debug, PartialEq, Eq)]
@@ -186,6 +205,7 @@ pub fn pmh(v: Pv, hs: Hs, m: usize, items: &[(u64, f64)], entry: Entry, placehol
     match hs {
         Hs::Fnv => pmh_generic::<FnvHasher>(v, m, items, entry, placeholder),
         Hs::NoHash => pmh_generic::<NoHashHasher>(v, m, items, entry, placeholder),
+        Hs::NoHashMod => pmh_generic::<probminhash::nohasher::NoHashHasher>(v, m, items, entry, placeholder),
     }
 }
 
@@ -198,6 +218,7 @@ pub fn pmh_batches(v: Pv, hs: Hs, m: usize, batches: &[&[(u64, f64)]], ph: u64) 
     match hs {
         Hs::Fnv => pmh_batches_g::<FnvHasher>(v, m, batches, ph),
         Hs::NoHash => pmh_batches_g::<NoHashHasher>(v, m, batches, ph),
+        Hs::NoHashMod => pmh_batches_g::<probminhash::nohasher::NoHashHasher>(v, m, batches, ph),
     }
 }
 
